@@ -1,0 +1,116 @@
+//! Verification hooks (prepared statements); see `verif/mod.rs`.
+//!
+//! H-PREPARED: obtain a real [`PreparedStatement`] without a server. The harness supplies the
+//! **body bytes of a `RESULT/Prepared` response**; they go through the production response parser
+//! (`scylla_cql::frame::response::result::deserialize_with_features`, which builds `pk_indexes` with
+//! index + sequence and sorts them) and the production constructor
+//! (`RawPreparedStatement::new(..).into_prepared_statement()`), exactly as
+//! `Connection::prepare_raw` + `Session::prepare` do. The partitioner is then chosen the way
+//! `Session::prepare_nongeneric` chooses it: from the table's `partitioner` string in the
+//! `ClusterState` schema via `PartitionerName::from_str`, default Murmur3.
+//!
+//! Also: a real [`ClusterState`] whose schema contains one table with chosen partition-key column
+//! types and partitioner string, so that `ClusterState::compute_token` runs on chosen metadata.
+
+use std::collections::HashMap;
+
+use bytes::Bytes;
+
+use crate::cluster::ClusterState;
+use crate::cluster::metadata::{Column, ColumnKind, Keyspace, Metadata, Strategy, Table};
+use crate::frame::response::result::{self, ColumnSpec, ColumnType, TableSpec};
+use crate::policies::host_filter::HostFilter;
+use crate::routing::partitioner::PartitionerName;
+use crate::statement::prepared::{PreparedStatement, RawPreparedStatement};
+use crate::statement::unprepared::Statement;
+
+struct RejectAll;
+impl HostFilter for RejectAll {
+    fn accept(&self, _peer: &crate::cluster::metadata::Peer) -> bool {
+        false
+    }
+}
+
+/// A `ClusterState` without nodes whose schema has keyspace `keyspace` with table `table`:
+/// partition key columns `pk0, pk1, ...` of the given types, and the given
+/// `system_schema.scylla_tables.partitioner` string.
+pub fn cluster_state_with_table(
+    keyspace: &str,
+    table: &str,
+    pk_column_types: &[ColumnType<'static>],
+    partitioner: Option<&str>,
+) -> ClusterState {
+    let table_spec = TableSpec::owned(keyspace.to_owned(), table.to_owned());
+    let names: Vec<String> = (0..pk_column_types.len()).map(|i| format!("pk{i}")).collect();
+    let table_meta = Table {
+        columns: names
+            .iter()
+            .zip(pk_column_types)
+            .map(|(n, t)| {
+                (
+                    n.clone(),
+                    Column {
+                        typ: t.clone(),
+                        kind: ColumnKind::PartitionKey,
+                    },
+                )
+            })
+            .collect(),
+        partition_key: names.clone(),
+        clustering_key: Vec::new(),
+        partitioner: partitioner.map(str::to_owned),
+        pk_column_specs: names
+            .iter()
+            .zip(pk_column_types)
+            .map(|(n, t)| ColumnSpec::owned(n.clone(), t.clone(), table_spec.clone()))
+            .collect(),
+    };
+    let ks = Keyspace {
+        strategy: Strategy::LocalStrategy,
+        durable_writes: true,
+        tablet_based: false,
+        tables: HashMap::from([(table.to_owned(), table_meta)]),
+        views: HashMap::new(),
+        user_defined_types: HashMap::new(),
+    };
+    let metadata = Metadata {
+        peers: Vec::new(),
+        keyspaces: HashMap::from([(keyspace.to_owned(), Ok(ks))]),
+        cluster_name: None,
+        client_routes: None,
+    };
+    ClusterState::verif_new_sync(metadata, super::tablets::node_config(), Some(&RejectAll))
+}
+
+/// Production parse of a `RESULT` body that must be of kind `Prepared`, production construction
+/// of the statement, partitioner chosen from `cluster_state`'s schema as the session does.
+pub fn prepared_from_response_body(
+    statement_text: &str,
+    result_body: &[u8],
+    cluster_state: &ClusterState,
+) -> Result<PreparedStatement, String> {
+    let parsed = result::deserialize_with_features(
+        Bytes::copy_from_slice(result_body),
+        None,
+        &crate::frame::protocol_features::ProtocolFeatures::default(),
+    )
+        .map_err(|e| format!("RESULT body rejected: {e}"))?;
+    let result::Result::Prepared(p) = parsed else {
+        return Err("RESULT body is not of kind Prepared".to_owned());
+    };
+    let statement = Statement::new(statement_text);
+    let mut prepared = RawPreparedStatement::new(&statement, p, false, None).into_prepared_statement();
+    // Mirrors `Session::prepare_nongeneric` + `Session::extract_partitioner_name`.
+    let name = prepared.get_table_spec().and_then(|spec| {
+        cluster_state
+            .keyspaces
+            .get(spec.ks_name())?
+            .tables
+            .get(spec.table_name())?
+            .partitioner
+            .as_deref()
+    });
+    let partitioner = name.and_then(PartitionerName::from_str).unwrap_or_default();
+    prepared.set_partitioner_name(partitioner);
+    Ok(prepared)
+}
